@@ -2,8 +2,3 @@ import Proofs.Map
 import Proofs.Toks
 import Proofs.Structure
 import Proofs.Range
-import Proofs.FlatInsertCore
-import Proofs.ShallowKeys
-import Proofs.GapBack
-import Proofs.GapBackAligned
-import Proofs.HoleValid
